@@ -166,7 +166,7 @@ pub fn mir_dump_main(args: &[String]) {
   use crate::util::{arg, arg_or};
   let sources: BTreeMap<String, String> =
     serde_json::from_str(&std::fs::read_to_string(arg(args, "--json").expect("--json")).unwrap()).unwrap();
-  let opt = OptBits(arg_or(args, "--opt", "31").parse().unwrap());
+  let build = Build::parse(&arg_or(args, "--build", &arg_or(args, "--opt", "31")));
   let mut heap = Heap::new();
   let mut handles: HashMap<ModuleReference, String> = samlang_parser::builtin_std_raw_sources(&mut heap);
   for (name, text) in &sources {
@@ -181,7 +181,13 @@ pub fn mir_dump_main(args: &[String]) {
   let checked = samlang_checker::type_check_sources(&parsed, &mut error_set).0;
   assert!(!error_set.has_errors(), "program rejected");
   let mir = samlang_compiler::compile_sources_to_mir(&mut heap, &checked);
-  let mir = samlang_optimization::optimize_sources(&mut heap, mir, &opt.config());
+  let mir = match &build {
+    Build::Config(opt) => samlang_optimization::optimize_sources(&mut heap, mir, &opt.config()),
+    Build::Raw => mir,
+    Build::Pass(p) => p
+      .split('+')
+      .fold(mir, |m, one| samlang_optimization::verif_hooks::run_single_pass(&mut heap, m, one)),
+  };
   println!("{}", mir.debug_print(&heap));
 }
 
